@@ -1380,6 +1380,10 @@ func filterImage(
 			if err != nil {
 				return nil, err
 			}
+			if functionOptions.imageExcludeImports {
+				// Files that are only needed by the targeted paths have become imports.
+				newImage = bufimage.ImageWithoutImports(newImage)
+			}
 		}
 	}
 	return newImage, nil
